@@ -420,7 +420,9 @@ theorem applySetting_windows {st st' : State} {sm sm' : Bool} {p : Nat × Nat}
   have hne : ¬ p.1 = sInitialWindowSize := by simpa using hp
   by_cases h5 : p.1 = sMaxFrameSize
   · simp only [applySetting, h5, if_true] at h
-    cases h; exact ⟨rfl, rfl⟩
+    split at h
+    · cases h
+    · cases h; exact ⟨rfl, rfl⟩
   · by_cases h3 : p.1 = sMaxConcurrentStreams
     · simp only [applySetting, h5, h3, if_true, if_false] at h
       cases h; exact ⟨rfl, rfl⟩
